@@ -58,12 +58,13 @@ theorem padded_lex_order (s t : Nat) (hs : s < 10 ^ 6) (ht : t < 10 ^ 6) : fmt06
   rw [numWidth_le_six s hs, numWidth_le_six t ht, map_add_lt_iff, padDigits_lt_iff,
     Nat.mod_eq_of_lt hs, Nat.mod_eq_of_lt ht]
 
-/-- … and it is *not* beyond six digits: `"1000000" < "999999"` as strings.  (Observation F10: "times of different
-digit counts" in the property is read as "at most six digits".) -/
+/-- … and it is *not* beyond six digits: `"1000000" < "999999"` as strings.  (Finding F10: this is why the plain
+`max(list_of_files)` of the old code, `latestLex`, picked the wrong file beyond six digits — see
+`latestLex_wrong_beyond_six_digits`; the repaired code compares parsed times, `latest_selected` needs no bound.) -/
 theorem padded_lex_order_fails_beyond_six_digits :
     fmt06 1000000 < fmt06 999999 ∧ ¬ ((1000000 : Nat) < 999999) := by decide
 
-/-- whole path names order like the times (same folder, same name convention) -/
+/-- whole path names order like the times (same folder, same name convention), for times of at most six digits -/
 theorem fileName_lt_iff (folder conv : List Nat) (s t : Nat) (hs : s < 10 ^ 6) (ht : t < 10 ^ 6) :
     fileName folder conv s < fileName folder conv t ↔ s < t := by
   unfold fileName
@@ -71,9 +72,135 @@ theorem fileName_lt_iff (folder conv : List Nat) (s t : Nat) (hs : s < 10 ^ 6) (
     unfold fmt06; rw [numWidth_le_six s hs, numWidth_le_six t ht]; simp [padDigits_length]
   rw [append_right_lt_iff _ _ _ (by simp [hl]), append_left_lt_iff, padded_lex_order s t hs ht]
 
-/-- **`max(list_of_files)` is the checkpoint with the largest time**, in whatever order `glob` lists the files -/
-theorem latest_selected (folder conv : List Nat) (ts : List Nat) (hne : ts ≠ []) (h6 : ∀ t ∈ ts, t < 10 ^ 6) :
-    ∃ T, T ∈ ts ∧ (∀ t ∈ ts, t ≤ T) ∧ latest (ts.map (fileName folder conv)) = some (fileName folder conv T) := by
+/-- **the time parsed back from the file name is the time written**: any folder name, any name convention, any
+number of digits.  No side condition: `split('_')[-1]` takes what follows the *last* `'_'` of the whole path, and the
+tail `"<digits>.h5"` written after the convention's `'_'` contains none, so `'_'`, `'.'` or `'/'` inside the folder or
+the convention (`"run_1.5/x"`, `"my_grid"`) never reach the parser; `split('.')[0]` then stops at the `'.'` of `".h5"`. -/
+theorem restart_time_parsed (folder conv : List Nat) (t : Nat) : parseTime (fileName folder conv t) = some t := by
+  unfold parseTime fileName
+  have h95 : (95 : Nat) ∉ fmt06 t ++ [46, 104, 53] := by
+    intro h
+    rcases List.mem_append.1 h with h | h
+    · have := fmt06_mem t 95 h; omega
+    · revert h; decide
+  have h46 : (46 : Nat) ∉ fmt06 t := by
+    intro h; have := fmt06_mem t 46 h; omega
+  have e1 : folder ++ [47] ++ conv ++ [95] ++ fmt06 t ++ [46, 104, 53]
+      = (folder ++ [47] ++ conv) ++ 95 :: (fmt06 t ++ [46, 104, 53]) := by simp
+  rw [e1, lastField_append 95 _ _ h95]
+  have e2 : fmt06 t ++ [46, 104, 53] = fmt06 t ++ 46 :: [104, 53] := rfl
+  rw [e2, firstField_append 46 _ _ h46]
+  unfold fmt06
+  have hne : padDigits (max 6 (numWidth t)) t ≠ [] := by
+    intro h
+    have := padDigits_length (max 6 (numWidth t)) t
+    rw [h] at this
+    simp at this
+    omega
+  rw [parseNat_digits _ hne (padDigits_lt_ten _ _), foldl_padDigits, Nat.zero_mul, Nat.zero_add,
+    Nat.mod_eq_of_lt (lt_pow_width t)]
+
+/-- the name is a one-to-one function of the time (so equal times in a listing are the same file) -/
+theorem fileName_injective (folder conv : List Nat) (s t : Nat) (h : fileName folder conv s = fileName folder conv t) :
+    s = t := by
+  have := congrArg parseTime h
+  rw [restart_time_parsed, restart_time_parsed] at this
+  exact Option.some.inj this
+
+/-- **the repaired selection on arbitrary listings** (names need not come from `fileName`: `glob("grid_*")` also matches
+`grid_5.h5` or `grid_000005.h5.bak`, whose times tie with `grid_000005.h5`): if every listed name has a parsable time,
+the file chosen is the *first* one of maximal time — everything listed before it is strictly earlier, nothing listed
+after it is later — and the run resumes at that time. -/
+theorem latest_first_of_ties (files : List (List Nat)) (hne : files ≠ [])
+    (hp : ∀ g ∈ files, ∃ s, parseTime g = some s) :
+    ∃ pre f post T, files = pre ++ f :: post ∧ parseTime f = some T
+      ∧ (∀ g ∈ pre, ∃ s, parseTime g = some s ∧ s < T) ∧ (∀ g ∈ post, ∃ s, parseTime g = some s ∧ s ≤ T)
+      ∧ latestByTime files = some f ∧ restartChoice files = some (f, T) := by
+  obtain ⟨f, T, h1, pre, post, hs, hf, hpre, hpost⟩ := latestWithTime_firstMax files hne hp
+  have hl : latestByTime files = some f := by simp [latestByTime, h1]
+  exact ⟨pre, f, post, T, hs, hf, hpre, hpost, hl, by simp [restartChoice, hl, hf]⟩
+
+/-- the selection raises (`none`) exactly when nothing is listed or some listed name has no parsable time -/
+theorem selection_fails_iff (files : List (List Nat)) :
+    latestByTime files = none ↔ files = [] ∨ ∃ g ∈ files, parseTime g = none := by
+  constructor
+  · intro h
+    by_cases hne : files = []
+    · exact Or.inl hne
+    · right
+      by_contra hno
+      have hp : ∀ g ∈ files, ∃ s, parseTime g = some s := by
+        intro g hg
+        cases e : parseTime g with
+        | none => exact absurd ⟨g, hg, e⟩ hno
+        | some s => exact ⟨s, rfl⟩
+      obtain ⟨f, T, h1, -⟩ := latestWithTime_firstMax files hne hp
+      simp [latestByTime, h1] at h
+  · rintro (rfl | ⟨g, hg, hn⟩)
+    · rfl
+    · cases files with
+      | nil => simp at hg
+      | cons x xs =>
+        show Option.map (·.1) (xs.foldl keyStep ((parseTime x).map (fun tx => (x, tx)))) = none
+        rcases List.mem_cons.1 hg with rfl | hg
+        · rw [hn]; simp [foldl_keyStep_none]
+        · rw [foldl_keyStep_unparsable xs _ ⟨g, hg, hn⟩]; rfl
+
+/-- **the checkpoint with the largest time is selected**, in whatever order `glob` lists the files, for times of any
+number of digits (fix F10: `max(list_of_files, key=<parsed time>)`), any folder and any name convention.  Equal times
+in `ts` are the same name (`fileName_injective`), so there are no ties to break here. -/
+theorem latest_selected (folder conv : List Nat) (ts : List Nat) (hne : ts ≠ []) :
+    ∃ T, T ∈ ts ∧ (∀ t ∈ ts, t ≤ T) ∧ latestByTime (ts.map (fileName folder conv)) = some (fileName folder conv T) := by
+  have hp : ∀ g ∈ ts.map (fileName folder conv), ∃ s, parseTime g = some s := by
+    intro g hg
+    obtain ⟨t, _, rfl⟩ := List.mem_map.1 hg
+    exact ⟨t, restart_time_parsed folder conv t⟩
+  obtain ⟨pre, f, post, T, hs, hf, hpre, hpost, hl, -⟩ := latest_first_of_ties _ (by simpa using hne) hp
+  have hfm : f ∈ ts.map (fileName folder conv) := by rw [hs]; simp
+  obtain ⟨T', hT', rfl⟩ := List.mem_map.1 hfm
+  rw [restart_time_parsed] at hf
+  obtain rfl : T' = T := Option.some.inj hf
+  refine ⟨T', hT', ?_, hl⟩
+  intro t ht
+  have hm : fileName folder conv t ∈ pre ++ fileName folder conv T' :: post := by
+    rw [← hs]; exact List.mem_map_of_mem ht
+  rcases List.mem_append.1 hm with h | h
+  · obtain ⟨s, e, hlt⟩ := hpre _ h
+    rw [restart_time_parsed] at e
+    obtain rfl : t = s := Option.some.inj e
+    exact Nat.le_of_lt hlt
+  · rcases List.mem_cons.1 h with h | h
+    · exact Nat.le_of_eq (fileName_injective folder conv _ _ h)
+    · obtain ⟨s, e, hle⟩ := hpost _ h
+      rw [restart_time_parsed] at e
+      obtain rfl : t = s := Option.some.inj e
+      exact hle
+
+/-- `setupFromFile` without `timepoint`: the file with the largest time is opened and the run resumes at that time
+(any number of digits, any folder, any name convention) -/
+theorem restart_choice (folder conv : List Nat) (ts : List Nat) (hne : ts ≠ []) :
+    ∃ T, T ∈ ts ∧ (∀ t ∈ ts, t ≤ T) ∧
+      restartChoice (ts.map (fileName folder conv)) = some (fileName folder conv T, T) := by
+  obtain ⟨T, hT, hmax, hl⟩ := latest_selected folder conv ts hne
+  exact ⟨T, hT, hmax, by simp [restartChoice, hl, restart_time_parsed]⟩
+
+/-- the same with the library's maximum: the selection is `ts.max?` mapped to its name (both `none` for no files) -/
+theorem latest_selected_max (folder conv : List Nat) (ts : List Nat) :
+    latestByTime (ts.map (fileName folder conv)) = ts.max?.map (fileName folder conv)
+    ∧ restartChoice (ts.map (fileName folder conv)) = ts.max?.map (fun T => (fileName folder conv T, T)) := by
+  by_cases hne : ts = []
+  · subst hne; exact ⟨rfl, rfl⟩
+  · obtain ⟨T, hT, hmax, hl⟩ := latest_selected folder conv ts hne
+    have hm : ts.max? = some T := List.max?_eq_some_iff.2 ⟨hT, hmax⟩
+    rw [hm, hl]
+    exact ⟨rfl, by simp [restartChoice, hl, restart_time_parsed]⟩
+
+/-! #### the behaviour before fix F10 (plain `max(list_of_files)`), kept as a description of the old code -/
+
+/-- before the fix: `max(list_of_files)` was the checkpoint with the largest time *provided all times had at most six
+digits* -/
+theorem latestLex_selected (folder conv : List Nat) (ts : List Nat) (hne : ts ≠ []) (h6 : ∀ t ∈ ts, t < 10 ^ 6) :
+    ∃ T, T ∈ ts ∧ (∀ t ∈ ts, t ≤ T) ∧ latestLex (ts.map (fileName folder conv)) = some (fileName folder conv T) := by
   cases ts with
   | nil => exact absurd rfl hne
   | cons m ts =>
@@ -90,45 +217,62 @@ theorem latest_selected (folder conv : List Nat) (ts : List Nat) (hne : ts ≠ [
       rcases List.mem_cons.1 ht with rfl | ht
       · exact g1
       · exact g2 t ht
-    · simp only [List.map_cons, latest, h1]
+    · simp only [List.map_cons, latestLex, h1]
 
-/-- **the time parsed back from the file name is the time written** (any folder name, any number of digits) -/
-theorem restart_time_parsed (folder : List Nat) (t : Nat) : parseTime (fileName folder gridConv t) = some t := by
-  unfold parseTime fileName
-  have h95 : (95 : Nat) ∉ fmt06 t ++ [46, 104, 53] := by
-    intro h
-    rcases List.mem_append.1 h with h | h
-    · have := fmt06_mem t 95 h; omega
-    · revert h; decide
-  have h46 : (46 : Nat) ∉ fmt06 t := by
-    intro h; have := fmt06_mem t 46 h; omega
-  have e1 : folder ++ [47] ++ gridConv ++ [95] ++ fmt06 t ++ [46, 104, 53]
-      = (folder ++ [47] ++ gridConv) ++ 95 :: (fmt06 t ++ [46, 104, 53]) := by simp
-  rw [e1, lastField_append 95 _ _ h95]
-  have e2 : fmt06 t ++ [46, 104, 53] = fmt06 t ++ 46 :: [104, 53] := rfl
-  rw [e2, firstField_append 46 _ _ h46]
-  unfold fmt06
-  have hne : padDigits (max 6 (numWidth t)) t ≠ [] := by
-    intro h
-    have := padDigits_length (max 6 (numWidth t)) t
-    rw [h] at this
-    simp at this
-    omega
-  rw [parseNat_digits _ hne (padDigits_lt_ten _ _), foldl_padDigits, Nat.zero_mul, Nat.zero_add,
-    Nat.mod_eq_of_lt (lt_pow_width t)]
+/-- the fix changes nothing while all times have at most six digits -/
+theorem fix_agrees_up_to_six_digits (folder conv : List Nat) (ts : List Nat) (h6 : ∀ t ∈ ts, t < 10 ^ 6) :
+    latestByTime (ts.map (fileName folder conv)) = latestLex (ts.map (fileName folder conv)) := by
+  by_cases hne : ts = []
+  · subst hne; rfl
+  · obtain ⟨T, hT, hmax, hl⟩ := latest_selected folder conv ts hne
+    obtain ⟨T', hT', hmax', hl'⟩ := latestLex_selected folder conv ts hne h6
+    have : T = T' := Nat.le_antisymm (hmax' T hT) (hmax T' hT')
+    rw [hl, hl', this]
 
-/-- `setupFromFile` without `timepoint`: the file with the largest time is opened and the run resumes at that time -/
-theorem restart_choice (folder : List Nat) (ts : List Nat) (hne : ts ≠ []) (h6 : ∀ t ∈ ts, t < 10 ^ 6) :
-    ∃ T, T ∈ ts ∧ (∀ t ∈ ts, t ≤ T) ∧
-      restartChoice (ts.map (fileName folder gridConv)) = some (fileName folder gridConv T, T) := by
-  obtain ⟨T, hT, hmax, hl⟩ := latest_selected folder gridConv ts hne h6
-  exact ⟨T, hT, hmax, by simp [restartChoice, hl, restart_time_parsed]⟩
+/-- **finding F10, the old behaviour beyond six digits**: with checkpoints at t = 999999 and t = 1000000 (any folder, any
+name convention) the old `max(list_of_files)` returned the file of t = 999999, whichever way round they are listed;
+the repaired selection returns the file of t = 1000000 -/
+theorem latestLex_wrong_beyond_six_digits (folder conv : List Nat) :
+    latestLex ([999999, 1000000].map (fileName folder conv)) = some (fileName folder conv 999999)
+    ∧ latestLex ([1000000, 999999].map (fileName folder conv)) = some (fileName folder conv 999999)
+    ∧ latestByTime ([999999, 1000000].map (fileName folder conv)) = some (fileName folder conv 1000000)
+    ∧ latestByTime ([1000000, 999999].map (fileName folder conv)) = some (fileName folder conv 1000000) := by
+  have hlt : fileName folder conv 1000000 < fileName folder conv 999999 := by
+    unfold fileName
+    simp only [List.append_assoc]
+    rw [append_left_lt_iff, append_left_lt_iff, append_left_lt_iff, append_left_lt_iff]
+    decide
+  have hnlt : ¬ fileName folder conv 999999 < fileName folder conv 1000000 := fun h => List.lt_asymm hlt h
+  have sel : ∀ ts : List Nat, ts ≠ [] → 1000000 ∈ ts → (∀ t ∈ ts, t ≤ 1000000) →
+      latestByTime (ts.map (fileName folder conv)) = some (fileName folder conv 1000000) := by
+    intro ts hne hm hle
+    obtain ⟨T, hT, hmax, hl⟩ := latest_selected folder conv ts hne
+    rw [hl, Nat.le_antisymm (hle T hT) (hmax _ hm)]
+  refine ⟨?_, ?_, sel _ (by simp) (by simp) (by simp), sel _ (by simp) (by simp) (by simp)⟩
+  · simp only [List.map_cons, List.map_nil, latestLex, List.foldl_cons, List.foldl_nil, if_neg hnlt]
+  · simp only [List.map_cons, List.map_nil, latestLex, List.foldl_cons, List.foldl_nil, if_pos hlt]
 
 example : uncodes (fileName (codes "sim_0.1") gridConv 42) = "sim_0.1/grid_000042.h5" := by decide
+
+/-- a folder with `'_'` and `'.'` in two path components, a convention with `'_'`: the parser is not disturbed -/
+example : uncodes (fileName (codes "run_1.5/x") (codes "my_grid") 1234567) = "run_1.5/x/my_grid_1234567.h5"
+    ∧ parseTime (fileName (codes "run_1.5/x") (codes "my_grid") 1234567) = some 1234567 := by decide
 
 /-- non-vacuity: three checkpoints with 1, 3 and 2 digit times listed in arbitrary order: the one of t = 100 is chosen -/
 example : restartChoice ([5, 100, 99].map (fileName (codes "run_1") gridConv)) = some (fileName (codes "run_1") gridConv 100, 100) := by
   decide
+
+/-- non-vacuity beyond six digits: the checkpoint of t = 1000000 is chosen (the old rule chose 999999) -/
+example : restartChoice ([5, 999999, 1000000, 12].map (fileName (codes "run_1") gridConv))
+      = some (fileName (codes "run_1") gridConv 1000000, 1000000)
+    ∧ latestLex ([5, 999999, 1000000, 12].map (fileName (codes "run_1") gridConv))
+      = some (fileName (codes "run_1") gridConv 999999) := by
+  decide
+
+/-- ties between different names of the same time: the first listed is kept; an unparsable name makes the selection fail -/
+example : latestByTime [codes "d/grid_000005.h5", codes "d/grid_5.h5"] = some (codes "d/grid_000005.h5")
+    ∧ latestByTime [codes "d/grid_5.h5", codes "d/grid_000005.h5"] = some (codes "d/grid_5.h5")
+    ∧ latestByTime [codes "d/grid_000005.h5", codes "d/grid_old.h5"] = none := by decide
 
 /-! ### 3. the driver's bookkeeping (on the generated script) -/
 
